@@ -5,18 +5,23 @@ Case kinds (all JSON):
   tx   send / sendall / buffer / flush over a socket that accepts partial sends / raises timeouts
   ns   NetstringSocket round trip: write_ns payloads (partial sends), cut the wire, read_ns back
   nsr  read_ns over an arbitrary scripted stream
-Timeouts come only from the script (every BufferedSocket is used with timeout=None).
+  duo  two independent BufferedSockets (each an rx or tx case of its own) whose calls are interleaved
+Timeouts come only from the script.  Two ways: 'T' = the wrapped socket raises socket.timeout (sockets
+used with timeout=None), and - cases with clk=1 - 'W' = the wall clock passes the deadline: the
+BufferedSocket is then used with timeout=1000.0 and `boltons.socketutils.time` is replaced, for the
+duration of the case, by a scripted clock (FakeClock) that jumps past the deadline exactly when the code
+looks at it with a 'W' at the head of the script, so the `cur_timeout <= 0.0` branches run deterministically.
 """
 import itertools
 import socket
 
 from bv.common import Property, Failure, time_limit, exc_name, CaseTimeout, InfraError, Driver
 
-EXC = {'Timeout': 'timeout', 'ConnectionClosed': 'closed', 'MessageTooLong': 'toolong',
+EXC = {'Timeout': 'timeout', 'ConnectionClosed': 'closed', 'MessageTooLong': 'toolong', 'BlockingIOError': 'oserror',
        'NetstringInvalidSize': 'invalidsize', 'NetstringMessageTooLong': 'nstoolong',
        'NetstringProtocolError': 'protocolerror'}
-# bytes Python's int() tolerates around / inside a number: outside the model's parseNat
-INT_LENIENT = set(b' \t\n\r\x0b\x0c+-_')
+# bytes Python's int() tolerates around / inside a number (modelled by parsePyInt since round 2)
+INT_LENIENT = b' \t\n\r\x0b\x0c+-_'
 
 
 def hx(b):
@@ -50,9 +55,12 @@ class FakeSock:
         if not s:
             return b''
         ev = s[0]
-        if ev == 'T':
+        if ev == 'T' or ev == 'W':      # a recv that finds the deadline already passed times out too
             s.pop(0)
             raise socket.timeout()
+        if ev == 'E':
+            s.pop(0)
+            raise BlockingIOError(11, 'Resource temporarily unavailable')
         if len(ev) <= n:
             s.pop(0)
             return ev
@@ -66,14 +74,79 @@ class FakeSock:
             self.wire += data
             return len(data)
         ev = s.pop(0)
-        if ev == 'T':
+        if ev == 'T' or ev == 'W':
             raise socket.timeout()
+        if ev == 'E':
+            raise BlockingIOError(11, 'Resource temporarily unavailable')
         k = min(ev[1], len(data))
         self.wire += data[:k]
         return k
 
+    def sendall(self, data, flags=0):
+        # the socket API has it; the verified code does not use it, a changed one might: like the real
+        # thing it may raise socket.timeout after part of the data has gone out
+        data = bytes(data)
+        while data:
+            n = self.send(data)
+            data = data[n:]
+
     def undelivered(self):
-        return b''.join(e for e in self.rscript if e != 'T')
+        return b''.join(e for e in self.rscript if not is_to(e))
+
+
+class FakeClock:
+    """Stands in for the `time` module inside boltons.socketutils while a clk=1 case runs.  The first
+    time() of every public call is that call's `start`; a later time() (a deadline check) that finds a
+    'W' at the head of the watched script consumes it and jumps far past any deadline."""
+
+    def __init__(self, script):
+        self.script = script
+        self.now = 1000.0
+        self.first = True
+
+    def begin_call(self):
+        self.first = True
+
+    def time(self):
+        if self.first:
+            self.first = False
+            return self.now
+        if self.script and self.script[0] == 'W':
+            self.script.pop(0)
+            self.now += 1e9
+        return self.now
+
+
+class patched_clock:
+    def __init__(self, clock):
+        self.clock = clock
+
+    def __enter__(self):
+        import boltons.socketutils as su
+        self.su, self.saved = su, su.time
+        su.time = self.clock
+        return self.clock
+
+    def __exit__(self, *a):
+        self.su.time = self.saved
+        return False
+
+
+CLK_TIMEOUT = 1000.0
+
+
+class nullctx:
+    def __enter__(self):
+        return None
+
+    def __exit__(self, *a):
+        return False
+
+
+def is_to(e):
+    """a script event that is not data: socket timeout, wall-clock expiry, or 'E' = the socket raises a
+    transient OSError (BlockingIOError, what a non-blocking socket does when nothing is ready)"""
+    return e == 'T' or e == 'W' or e == 'E'
 
 
 def compositions(n):
@@ -121,15 +194,24 @@ class C12(Property):
             'timeout scripts x send/sendall/buffer/flush. ns: write_ns payloads over partial sends, wire re-cut, '
             'read_ns (maxsize via constructor / setmaxsize / argument); nsr: read_ns over valid frames with point '
             'mutations. Non-trivial = the stream reaches the code in >= 2 pieces or with a timeout (rx/nsr/ns), or a '
-            'send is partial / times out (tx), and at least one call returns a non-empty value.')
+            'send is partial / times out (tx), and at least one call returns a non-empty value. Round 2, generated '
+            'FIRST: clk=1 cases (rx and tx) where timeouts are wall-clock expiries (W events, scripted clock, '
+            'timeout=1000.0) - exhaustive small scope plus random; read-side NetstringSocket configured through '
+            'every path (constructor c0, then setmaxsize, then maxsize= argument, c0 smaller/larger than the '
+            'effective maxsize, digit-count boundaries 9/10/99/100); duo: two BufferedSockets interleaved '
+            '(cross-instance state); multi-step families: timed-out call followed by a different call, calls '
+            'on pre-buffered data (after peek / surplus) with the window boundary inside the buffer; fault cases '
+            'where the wrapped socket raises BlockingIOError (E events) instead of timing out; nsr with size prefixes '
+            'only int() accepts (whitespace, sign incl. negative, underscores) and near misses.')
     ASSUMPTIONS = [
         'the wrapped socket returns b"" from recv only at end of stream, never more than the requested bytes, and '
         'send returns how many bytes it took (scripted FakeSock in harness/bv/props/c12.py)',
-        'timeouts are raised by the socket only (timeout=None everywhere): the wall-clock branch '
-        '`cur_timeout <= 0` is modelled as a socket.timeout between two recvs/sends',
+        'timeouts are scripted: raised by the wrapped socket (timeout=None) or, in clk=1 cases, by the '
+        '`cur_timeout <= 0` branches under a scripted clock substituted for boltons.socketutils.time '
+        '(timeout=1000.0); the real wall clock never decides anything',
         'recvsize >= 1; sizes and maxsize are non-negative ints; flags=0',
-        'read_ns size prefixes: model covers ASCII-digit prefixes and clearly invalid ones; streams containing '
-        'whitespace, sign or underscore bytes (which int() tolerates) are oracle-only',
+        'read_ns size prefixes go through int(): the model of int(bytes) (parsePyInt) is compared with this '
+        'interpreter\'s int() on every byte string of length <= 4 over a 12-letter alphabet on every run',
         'single-threaded use (the RLocks are not exercised)',
     ]
     CORRESPONDENCE_NAME = 'C12.Driver (BufferedSocket/NetstringSocket model) vs boltons.socketutils over a scripted socket'
@@ -159,6 +241,19 @@ class C12(Property):
                 want = 'DEFAULT_MAXSIZE=%d RECV_LARGE_MAXSIZE=%d' % (su.DEFAULT_MAXSIZE, su._RECV_LARGE_MAXSIZE)
                 if got != want:
                     raise InfraError('generated constants out of date: driver says %r, source says %r' % (got, want))
+                # the model of Python's int(bytes) against this interpreter's int(), exhaustively at small scope
+                alpha = b' \t\x0b+-_07a:\x00\xb2'
+                words = [bytes(t) for n in range(0, 5) for t in itertools.product(alpha, repeat=n)]
+                words += [b'1_000', b'  12  ', b'\n+1_2_3\r', b'-0', b'- 1', b'0_', b'1__1', b'+-1', b'\x0c5\x0c']
+                outs = d.query(['int ' + hx(w) for w in words])
+                for w, o in zip(words, outs):
+                    try:
+                        want = str(int(w))
+                    except ValueError:
+                        want = 'err'
+                    if o != want:
+                        raise InfraError('model of int() disagrees with Python on %r: model %s, int() %s' % (w, o, want))
+                self.stats['int_model_checked'] = len(words)
         except InfraError:
             raise
         except Exception:
@@ -172,6 +267,21 @@ class C12(Property):
     def cases(self, budget_s):
         rng = self.rng
         th = self.thorough
+        # -- round 2: small, diverse, adversarial families first
+        yield from self.ns_config_cases()
+        yield from self.rx_clock_exhaustive(4 if th else 3)
+        yield from self.tx_clock_exhaustive()
+        yield from self.rx_multistep(rng, 6000 if th else 1500)
+        for i in range(20000 if th else 2500):
+            yield self.duo_random(rng)
+        for i in range(40000 if th else 3000):
+            yield self.clk_random(rng)
+        for i in range(20000 if th else 2000):
+            yield self.fault_random(rng)
+        for i in range(20000 if th else 1500):
+            yield self.ns_cfg_random(rng)
+        for i in range(20000 if th else 1500):
+            yield self.nsr_lenient(rng)
         # -- rx exhaustive small scope
         yield from self.rx_exhaustive(6 if th else 4)
         # -- tx exhaustive small scope
@@ -199,9 +309,18 @@ class C12(Property):
 
     def deep_cases(self, budget_s):
         rng = self.rng
+        yield from self.ns_config_cases()
+        yield from self.rx_clock_exhaustive(4)
+        yield from self.tx_clock_exhaustive()
+        yield from self.rx_multistep(rng, 5000)
         yield from self.rx_exhaustive(5)
         yield from self.tx_exhaustive()
         while True:
+            yield self.duo_random(rng)
+            yield self.clk_random(rng)
+            yield self.fault_random(rng)
+            yield self.ns_cfg_random(rng)
+            yield self.nsr_lenient(rng)
             yield self.rx_random(rng)
             yield self.rx_adversarial(rng)
             yield self.tx_random(rng)
@@ -261,6 +380,190 @@ class C12(Property):
                                'ops': [['s', d1], ['b', d2], ['f'], ['sa', d2], ['f'], ['f'], ['f']]}
                         yield {'k': 'tx', 'script': list(script),
                                'ops': [['b', d1], ['b', d2], ['s', '-'], ['f'], ['s', d1], ['f'], ['f']]}
+
+    # ---- round 2 families
+    def rx_clock_exhaustive(self, L):
+        """the small exhaustive scope again with wall-clock expiries: every single gap gets a W, every gap
+        gets a W, and W / T alternate"""
+        for n in range(1, L + 1):
+            for t in itertools.product(b'ab', repeat=n):
+                stream = bytes(t)
+                for sizes in compositions(n):
+                    chunks = cut(stream, sizes)
+                    k = len(chunks)
+                    placements = [{g: 'W'} for g in range(k + 1)]
+                    placements.append({g: 'W' for g in range(k + 1)})
+                    placements.append({g: 'WT'[g % 2] for g in range(k + 1)})
+                    placements.append({g: 'TW'[g % 2] for g in range(k + 1)})
+                    for pi, pl in enumerate(placements):
+                        script = []
+                        for i, c in enumerate(chunks):
+                            if i in pl:
+                                script.append(pl[i])
+                            script.append(hx(c))
+                        if k in pl:
+                            script.append(pl[k])
+                        for rs in (1, 2, 64):
+                            for ms in (1, 2, 100):
+                                for fi, fam in enumerate(self.OPFAMS):
+                                    if (fi + n + pi + rs + ms + k) % 3:
+                                        continue
+                                    yield {'k': 'rx', 'clk': 1, 'rs': rs, 'ms': ms, 'retry': 1 if (fi + k) % 4 else 0,
+                                           'script': script, 'ops': fam}
+
+    def tx_clock_exhaustive(self):
+        datas = ['-', '61', '6162', '616263']
+        evs = [['a', 0], ['a', 1], ['a', 2], ['a', 9], 'T', 'W']
+        for n in range(0, 4):
+            for script in itertools.product(evs, repeat=n):
+                if 'W' not in script:
+                    continue
+                for d1 in datas:
+                    for d2 in ('-', '78'):
+                        yield {'k': 'tx', 'clk': 1, 'script': list(script),
+                               'ops': [['s', d1], ['b', d2], ['f'], ['sa', d2], ['f'], ['f'], ['f']]}
+                        yield {'k': 'tx', 'clk': 1, 'script': list(script),
+                               'ops': [['b', d1], ['b', d2], ['s', '-'], ['f'], ['s', d1], ['f'], ['f']]}
+
+    def clk_random(self, rng):
+        """random rx / tx cases whose timeouts are a mix of socket timeouts and wall-clock expiries"""
+        if rng.random() < 0.6:
+            c = self.rx_adversarial(rng) if rng.random() < 0.4 else self.rx_random(rng, onebyte=rng.random() < 0.2)
+            if not any(e == 'T' for e in c['script']):
+                # make sure there is something to expire
+                pos = rng.randrange(len(c['script']) + 1)
+                c['script'] = c['script'][:pos] + ['T'] + c['script'][pos:]
+        else:
+            c = self.tx_random(rng)
+            if not any(e == 'T' for e in c['script']):
+                pos = rng.randrange(len(c['script']) + 1)
+                c['script'] = c['script'][:pos] + ['T'] + c['script'][pos:]
+                c['ops'] = c['ops'] + [['f']]
+        c['script'] = ['W' if e == 'T' and rng.random() < 0.7 else e for e in c['script']]
+        c['clk'] = 1
+        return c
+
+    def fault_random(self, rng):
+        """some of the timeouts become transient OSErrors of the wrapped socket: every exception, not only
+        Timeout, must leave all bytes in place"""
+        r = rng.random()
+        if r < 0.35:
+            c = self.rx_adversarial(rng)
+        elif r < 0.7:
+            c = self.rx_random(rng, onebyte=rng.random() < 0.2)
+        else:
+            c = self.tx_random(rng)
+        sc = list(c['script'])
+        if not any(e == 'T' for e in sc):
+            sc.insert(rng.randrange(len(sc) + 1), 'T')
+        idx = [i for i, e in enumerate(sc) if e == 'T']
+        must = rng.choice(idx)
+        c['script'] = ['E' if e == 'T' and (i == must or rng.random() < 0.5) else e for i, e in enumerate(sc)]
+        if c['k'] == 'tx':
+            c['ops'] = c['ops'] + [['f'], ['f']]
+        return c
+
+    def rx_multistep(self, rng, count):
+        """sequences in which one call leaves state behind for a *different* call: a call that times out
+        (partial data kept) followed by another delimiter / size / close; calls on data pre-buffered by peek or by
+        a recv_size surplus, with the maxsize window ending inside, at the edge of and beyond the buffered
+        delimiter; setmaxsize between calls that omit maxsize"""
+        for _ in range(count):
+            alpha = rng.choice([b'ab', b'abc', b'a\r\n'])
+            n = rng.randint(2, 10)
+            stream = self.rand_stream(rng, n, alpha)
+            d1 = self.rand_stream(rng, rng.choice([1, 2, 3]), alpha)
+            i = rng.randrange(n)
+            d2 = stream[i:i + rng.choice([1, 1, 2, 3])]
+            pos = stream.find(d2)
+            end = pos + len(d2)
+            kind = rng.randrange(4)
+            mxs = [max(0, end - 1), end, end + 1, pos, 'U', 'N']
+            if kind == 0:
+                # first call times out with a partial buffer, then a different call (no retry)
+                cutat = rng.randint(1, n)
+                script = [hx(stream[:cutat]), rng.choice(['T', 'T', 'W'])] + ([hx(stream[cutat:])] if cutat < n else [])
+                first = rng.choice([['u', 0, 'U', hx(d1 + b'zz')], ['s', n + 1], ['p', n + 1], ['c', 'U'],
+                                    ['u', 1, 'N', hx(b'zzz')]])
+                second = rng.choice([['u', rng.randint(0, 1), rng.choice(mxs), hx(d2)], ['s', rng.randint(1, n)],
+                                     ['r', rng.randint(1, n)], ['p', rng.randint(1, n)], ['c', rng.choice(mxs)]])
+                ops = [first, second, ['u', 0, rng.choice(mxs), hx(d2)], ['c', 'N']]
+                retry = 0
+            elif kind == 1:
+                # data buffered by peek, then recv_until with the window boundary around the delimiter
+                script = self.rand_script(rng, stream, p_t=0.15)
+                ops = [['p', rng.choice([end, n, max(1, end - 1), min(n, end + 1)])],
+                       ['u', rng.randint(0, 1), rng.choice(mxs), hx(d2)], ['r', rng.randint(1, 4)], ['c', 'N']]
+                retry = 1
+            elif kind == 2:
+                # surplus left by recv_size / recv with a large recvsize, then the boundary call
+                script = [hx(stream)] if rng.random() < 0.5 else self.rand_script(rng, stream, p_t=0.1)
+                k0 = rng.randint(0, max(0, pos))
+                ops = [rng.choice([['s', k0], ['r', max(1, k0)]]),
+                       ['u', rng.randint(0, 1), rng.choice([max(0, end - k0 - 1), max(0, end - k0), end - k0 + 1, 'U']),
+                        hx(d2)], ['p', rng.randint(0, 3)], ['c', rng.choice(mxs)]]
+                retry = 1
+            else:
+                # setmaxsize between calls that omit maxsize
+                script = self.rand_script(rng, stream, p_t=0.15)
+                ops = [['m', rng.choice([0, 1, end - 1 if end > 0 else 0, end, n, n + 1])],
+                       rng.choice([['u', rng.randint(0, 1), 'U', hx(d2)], ['c', 'U']]),
+                       ['m', rng.choice([0, end, n, 100])],
+                       rng.choice([['u', rng.randint(0, 1), 'U', hx(d2)], ['c', 'U']]), ['c', 'N']]
+                retry = 1
+            clk = 1 if any(e == 'W' for e in script) else 0
+            case = {'k': 'rx', 'rs': rng.choice([1, 2, 3, 64]), 'ms': rng.choice([1, 2, 3, end, n, 100]),
+                    'retry': retry, 'script': script, 'ops': ops}
+            if clk:
+                case['clk'] = 1
+            yield case
+
+    def duo_random(self, rng):
+        """two sockets in one process: their calls interleaved; each must behave as if it were alone"""
+        def one():
+            r = rng.random()
+            if r < 0.5:
+                c = self.tx_random(rng)
+            elif r < 0.8:
+                c = self.rx_random(rng)
+            else:
+                c = self.rx_adversarial(rng)
+            return c
+        a, b = one(), one()
+        na, nb = len(a['ops']), len(b['ops'])
+        order = [0] * na + [1] * nb
+        rng.shuffle(order)
+        return {'k': 'duo', 'a': a, 'b': b, 'order': order}
+
+    NS_SIZES = [0, 1, 5, 9, 10, 11, 99, 100, 101, 999, 1000, 32768]
+
+    def ns_config_cases(self):
+        """reader configured through every path; constructor maxsize smaller and larger than the effective
+        one, digit-count boundaries; payload lengths at the effective maxsize and where its prefix gets longer"""
+        for c0 in (0, 5, 9, 10, 99, 100, 32768):
+            for ms in (0, 5, 9, 10, 11, 99, 100, 101, 1000):
+                for path in ([['c', c0], ['s', ms]], [['c', c0], ['a', ms]], [['c', c0], ['s', 3], ['s', ms]],
+                             [['c', ms], ['s', c0], ['a', ms]], [['c', c0], ['s', ms], ['a', ms]]):
+                    lens = sorted({0, 1, min(ms, 9), min(ms, 10), min(ms, 99), min(ms, 100), ms})
+                    payloads = [hx(bytes([97 + (i % 3)]) * ln) for i, ln in enumerate(lens)]
+                    yield {'k': 'ns', 'ms': ms, 'wscript': [], 'cuts': [3, 1, 2] * 40, 'nreads': len(payloads),
+                           'payloads': payloads, 'rcfg': path}
+
+    def ns_cfg_random(self, rng):
+        c = self.ns_random(rng) if rng.random() < 0.6 else self.nsr_random(rng)
+        ms = c['ms']
+        c.pop('via', None)
+        path = [['c', rng.choice(self.NS_SIZES)]]
+        for _ in range(rng.choice([0, 0, 1, 2])):
+            path.append(['s', rng.choice(self.NS_SIZES)])
+        if rng.random() < 0.5:
+            path.append(['a', ms])
+        elif len(path) == 1:
+            path = [['c', ms]]
+        else:
+            path[-1] = ['s', ms]
+        c['rcfg'] = path
+        return c
 
     def rand_stream(self, rng, n, alpha):
         return bytes(rng.choice(alpha) for _ in range(n))
@@ -414,7 +717,7 @@ class C12(Property):
                 ops.append(['b', d])
             else:
                 ops.append(['f'])
-        ops += [['f']] * (1 + sum(1 for e in script if e == 'T'))
+        ops += [['f']] * (1 + sum(1 for e in script if is_to(e)))
         return {'k': 'tx', 'script': script, 'ops': ops}
 
     def rand_payload(self, rng, maxlen):
@@ -451,6 +754,33 @@ class C12(Property):
         return {'k': 'ns', 'ms': 32768, 'wscript': [['a', 7], 'T', ['a', 1000], 'T'], 'cuts': [1] * 30000,
                 'nreads': 7, 'payloads': [hx(p) for p in payloads]}
 
+    def nsr_lenient(self, rng):
+        """size prefixes only Python's int() understands: padded with whitespace, signed (negative too),
+        grouped with underscores - and near misses of those"""
+        ms = rng.choice([0, 5, 9, 10, 99, 100, 32768])
+        frames = b''
+        for _ in range(rng.randint(1, 3)):
+            p = self.rand_payload(rng, 6)
+            num = str(len(p)).encode()
+            r = rng.random()
+            if r < 0.2:
+                num = rng.choice([b' ', b'\t', b'\n', b'\x0b\x0c', b'']) + num + rng.choice([b' ', b'\r', b''])
+            elif r < 0.4:
+                num = rng.choice([b'+', b'-', b'+0', b'-0', b'00']) + num
+            elif r < 0.55:
+                num = b'_'.join(bytes([c]) for c in num.rjust(2, b'0'))
+            elif r < 0.7:
+                num = rng.choice([b'_', b'+ ', b'1__', b'- ', b'', b' ', b'+', b'0_']) + num
+            elif r < 0.8:
+                num = num + rng.choice([b'_', b' 1', b'+', b'-'])
+            frames += num + b':' + p + b','
+        s = bytearray(frames)
+        if s and rng.random() < 0.3:
+            s[rng.randrange(len(s))] = rng.choice(INT_LENIENT + b'0:,')
+        script = self.rand_script(rng, bytes(s), onebyte=rng.random() < 0.3, p_t=0.1 if rng.random() < 0.3 else 0.0)
+        c = {'k': 'nsr', 'ms': ms, 'script': script, 'nreads': rng.randint(1, 4), 'rcfg': [['c', ms]]}
+        return c
+
     def nsr_random(self, rng):
         ms = rng.choice([0, 5, 9, 10, 99, 100, 32768])
         alpha = b'0123456789::,,ab'
@@ -480,11 +810,30 @@ class C12(Property):
     # ------------------------------------------------------------------ model line
     @staticmethod
     def _script_tok(script):
-        return ','.join('t' if e == 'T' else e for e in script) or '-'
+        return ','.join({'T': 't', 'W': 'w', 'E': 'e'}.get(e, e) for e in script) or '-'
 
     @staticmethod
     def _sscript_tok(script):
-        return ','.join('t' if e == 'T' else 'a%d' % e[1] for e in script) or '-'
+        return ','.join({'T': 't', 'W': 'w', 'E': 'e'}[e] if is_to(e) else 'a%d' % e[1] for e in script) or '-'
+
+    @staticmethod
+    def _rcfg(case):
+        """how the reading NetstringSocket is configured: [['c', n], ['s', n]*, ['a', n]?]"""
+        if 'rcfg' in case:
+            return case['rcfg']
+        import boltons.socketutils as su
+        via = case.get('via', 'ctor')
+        if via == 'ctor':
+            return [['c', case['ms']]]
+        return [['c', su.DEFAULT_MAXSIZE], ['s' if via == 'set' else 'a', case['ms']]]
+
+    @classmethod
+    def _rcfg_tok(cls, case):
+        return ','.join('%s%d' % (k, n) for k, n in cls._rcfg(case))
+
+    @classmethod
+    def _ms_eff(cls, case):
+        return cls._rcfg(case)[-1][1]
 
     def line(self, case):
         k = case['k']
@@ -514,22 +863,25 @@ class C12(Property):
             return ' '.join(toks)
         if k == 'ns':
             return ' '.join(['ns', str(case['ms']), self._sscript_tok(case['wscript']),
-                             ','.join(map(str, case['cuts'])) or '-', str(case['nreads'])] + case['payloads'])
+                             ','.join(map(str, case['cuts'])) or '-', str(case['nreads']), self._rcfg_tok(case)]
+                            + case['payloads'])
         if k == 'nsr':
-            stream = b''.join(unhx(e) for e in case['script'] if e != 'T')
-            if INT_LENIENT & set(stream):
+            return ' '.join(['nsr', self._rcfg_tok(case), self._script_tok(case['script']), str(case['nreads'])])
+        if k == 'duo':
+            la, lb = self.line(case['a']), self.line(case['b'])
+            if la is None or lb is None:
                 return None
-            return ' '.join(['nsr', str(case['ms']), self._script_tok(case['script']), str(case['nreads'])])
+            return 'duo %s | %s' % (la, lb)
         return None
 
     # ------------------------------------------------------------------ implementation
     @staticmethod
     def _rscript(script):
-        return ['T' if e == 'T' else unhx(e) for e in script]
+        return [e if is_to(e) else unhx(e) for e in script]
 
     @staticmethod
     def _sscript(script):
-        return ['T' if e == 'T' else ('a', e[1]) for e in script]
+        return [e if is_to(e) else ('a', e[1]) for e in script]
 
     def _call_rx(self, bs, op, ms):
         def mx(m):
@@ -547,22 +899,40 @@ class C12(Property):
         raise InfraError('bad rx op %r' % (op,))
 
     def run_rx(self, case):
+        out = []
+        for _ in self.step_rx(case, out):
+            pass
+        return out
+
+    def run_tx(self, case):
+        out = []
+        for _ in self.step_tx(case, out):
+            pass
+        return out
+
+    def step_rx(self, case, out):
+        """generator: performs one op of the case (with its retries) per step, appending records to `out`"""
         from boltons.socketutils import BufferedSocket
         fs = FakeSock(self._rscript(case['script']))
-        bs = BufferedSocket(fs, timeout=None, maxsize=case['ms'], recvsize=case['rs'])
-        tries = 1 + (sum(1 for e in case['script'] if e == 'T') if case['retry'] else 0)
-        out = []
+        clk = case.get('clk')
+        clock = FakeClock(fs.rscript)
+        bs = BufferedSocket(fs, timeout=CLK_TIMEOUT if clk else None, maxsize=case['ms'], recvsize=case['rs'])
+        tries = 1 + (sum(1 for e in case['script'] if is_to(e)) if case['retry'] else 0)
         for i, op in enumerate(case['ops']):
+            yield
             for _ in range(tries):
                 rec = {'op': i}
+                clock.begin_call()
                 try:
-                    if op[0] == 'm':
-                        v = bs.setmaxsize(op[1])
-                        rec['r'] = 'none' if v is None else 'exc:ret'
-                    else:
-                        v = self._call_rx(bs, op, case['ms'])
-                        rec['r'] = 'ok'
-                        rec['v'] = hx(bytes(v)) if isinstance(v, (bytes, bytearray)) else 'nonbytes:%s' % type(v).__name__
+                    with (patched_clock(clock) if clk else nullctx()):
+                        if op[0] == 'm':
+                            v = bs.setmaxsize(op[1])
+                            rec['r'] = 'none' if v is None else 'exc:ret'
+                        else:
+                            v = self._call_rx(bs, op, case['ms'])
+                            rec['r'] = 'ok'
+                            rec['v'] = (hx(bytes(v)) if isinstance(v, (bytes, bytearray))
+                                        else 'nonbytes:%s' % type(v).__name__)
                 except CaseTimeout:
                     raise
                 except Exception as e:
@@ -571,26 +941,29 @@ class C12(Property):
                 rec['rbuf'] = hx(bytes(rb)) if isinstance(rb, (bytes, bytearray)) else 'nonbytes'
                 rec['und'] = hx(fs.undelivered())
                 out.append(rec)
-                if rec['r'] != 'timeout':
+                if rec['r'] != 'timeout' and rec['r'] != 'oserror':
                     break
-        return out
 
-    def run_tx(self, case):
+    def step_tx(self, case, out):
         from boltons.socketutils import BufferedSocket
         fs = FakeSock((), self._sscript(case['script']))
-        bs = BufferedSocket(fs, timeout=None)
-        out = []
+        clk = case.get('clk')
+        clock = FakeClock(fs.sscript)
+        bs = BufferedSocket(fs, timeout=CLK_TIMEOUT if clk else None)
         for i, op in enumerate(case['ops']):
+            yield
             rec = {'op': i}
+            clock.begin_call()
             try:
-                if op[0] == 's':
-                    v = bs.send(unhx(op[1]))
-                elif op[0] == 'sa':
-                    v = bs.sendall(unhx(op[1]))
-                elif op[0] == 'b':
-                    v = bs.buffer(unhx(op[1]))
-                else:
-                    v = bs.flush()
+                with (patched_clock(clock) if clk else nullctx()):
+                    if op[0] == 's':
+                        v = bs.send(unhx(op[1]))
+                    elif op[0] == 'sa':
+                        v = bs.sendall(unhx(op[1]))
+                    elif op[0] == 'b':
+                        v = bs.buffer(unhx(op[1]))
+                    else:
+                        v = bs.flush()
                 rec['r'] = 'none' if v is None else 'sent:%d' % v if isinstance(v, int) else 'ret:%r' % (v,)
             except CaseTimeout:
                 raise
@@ -598,22 +971,49 @@ class C12(Property):
                 rec['r'] = EXC.get(exc_name(e), 'exc:' + exc_name(e))
             rec['sbuf'] = hx(bytes(bs.getsendbuffer()))
             rec['wire'] = hx(fs.wire)
+            rec['left'] = sum(1 for e in fs.sscript if is_to(e))
             out.append(rec)
-        return out
 
-    @staticmethod
-    def _mk_ns(fake, case):
-        """maxsize reaches read_ns by the constructor, by setmaxsize() or as an argument"""
+    def run_duo(self, case):
+        """two sockets, calls interleaved as `order` says (then whatever is left of each)"""
+        outs = ([], [])
+        gens = [self.step_rx(c, o) if c['k'] == 'rx' else self.step_tx(c, o)
+                for c, o in zip((case['a'], case['b']), outs)]
+        alive = [True, True]
+
+        def adv(w):
+            if alive[w]:
+                try:
+                    next(gens[w])
+                except StopIteration:
+                    alive[w] = False
+        adv(0)      # both sockets exist before either is used
+        adv(1)
+        for w in case['order']:
+            adv(w)
+        for w in (0, 1):
+            while alive[w]:
+                adv(w)
+        def sub(c, recs):
+            if c['k'] == 'tx':
+                return {'recs': recs, 'left': recs[-1]['left'] if recs else sum(1 for e in c['script'] if is_to(e))}
+            return {'recs': recs}
+        return {'a': sub(case['a'], outs[0]), 'b': sub(case['b'], outs[1])}
+
+    @classmethod
+    def _mk_ns(cls, fake, case):
+        """the reading NetstringSocket configured as the case says: constructor maxsize, then setmaxsize()
+        calls, then (optionally) the maxsize= argument of every read_ns"""
         from boltons.socketutils import NetstringSocket
-        via = case.get('via', 'ctor')
-        if via == 'ctor':
-            ns = NetstringSocket(fake, timeout=None, maxsize=case['ms'])
-        else:
-            ns = NetstringSocket(fake, timeout=None)
-            if via == 'set':
-                ns.setmaxsize(case['ms'])
+        path = cls._rcfg(case)
+        ns = NetstringSocket(fake, timeout=None, maxsize=path[0][1])
+        kw = {}
+        for kind, n in path[1:]:
+            if kind == 's':
+                ns.setmaxsize(n)
+            elif kind == 'a':
+                kw = {'maxsize': n}
         ns.bsock.settimeout(None)
-        kw = {'maxsize': case['ms']} if via == 'arg' else {}
         return ns, kw
 
     def run_ns(self, case):
@@ -671,6 +1071,7 @@ class C12(Property):
             except Exception as e:
                 rec['r'] = EXC.get(exc_name(e), 'exc:' + exc_name(e))
             rec['rbuf'] = hx(bytes(rd.bsock.getrecvbuffer()))
+            rec['und'] = hx(fr.undelivered())
             out.append(rec)
         return out
 
@@ -682,12 +1083,16 @@ class C12(Property):
                     obs = {'recs': self.run_rx(case)}
                     if case['retry'] and not any(op[0] == 'r' for op in case['ops']):
                         # "as when the whole stream arrives at once": the same calls, one chunk, no timeout
-                        stream = b''.join(unhx(e) for e in case['script'] if e != 'T')
-                        whole = dict(case, script=[hx(stream)] if stream else [], rs=max(len(stream), 1))
+                        stream = b''.join(unhx(e) for e in case['script'] if not is_to(e))
+                        whole = dict(case, script=[hx(stream)] if stream else [], rs=max(len(stream), 1), clk=0)
                         obs['whole'] = [[r['r'], r.get('v')] for r in self.run_rx(whole)]
                     return obs
                 if k == 'tx':
-                    return {'recs': self.run_tx(case)}
+                    recs = self.run_tx(case)
+                    return {'recs': recs, 'left': recs[-1]['left'] if recs else
+                            sum(1 for e in case['script'] if is_to(e))}
+                if k == 'duo':
+                    return self.run_duo(case)
                 if k == 'ns':
                     return self.run_ns(case)
                 if k == 'nsr':
@@ -706,14 +1111,27 @@ class C12(Property):
             return 'X' + obs['exc']
         k = case['k']
         if k == 'rx':
-            return ';'.join('%s/%s' % ('ok:' + r['v'] if r['r'] == 'ok' else r['r'], r['rbuf'])
-                            for r in obs['recs']) or '-'
+            def one(r):
+                return 'ok:' + r['v'] if r['r'] == 'ok' else r['r']
+            body = ';'.join('%s/%s' % (one(r), r['rbuf']) for r in obs['recs']) or '-'
+            if case['retry']:
+                # final outcome of every call (setmaxsize has none), final rbuf, number of operations
+                last = {}
+                for r in obs['recs']:
+                    last[r['op']] = r
+                finals = [one(last[i]) for i in sorted(last) if case['ops'][i][0] != 'm']
+                nops = sum(1 for op in case['ops'] if op[0] != 'm')
+                body += ' #%s/%s|%d' % (','.join(finals), obs['recs'][-1]['rbuf'] if obs['recs'] else '-', nops)
+            return body
         if k == 'tx':
-            return ';'.join('%s/%s/%s' % (r['r'], r['sbuf'], r['wire']) for r in obs['recs']) or '-'
+            return '%s #%d' % (';'.join('%s/%s/%s' % (r['r'], r['sbuf'], r['wire']) for r in obs['recs']) or '-',
+                               obs.get('left', 0))
         if k == 'ns':
             return 'W:%s;%s;%s' % (','.join(obs['w']), obs['wire'], ','.join(obs['r']))
         if k == 'nsr':
             return ','.join('%s/%s' % (r['r'], r['rbuf']) for r in obs['recs']) or '-'
+        if k == 'duo':
+            return '%s | %s' % (self.render(case['a'], obs['a']), self.render(case['b'], obs['b']))
         return '?'
 
     # ------------------------------------------------------------------ oracle (independent of the model)
@@ -731,6 +1149,17 @@ class C12(Property):
             return self.oracle_ns(case, obs)
         if k == 'nsr':
             return self.oracle_nsr(case, obs)
+        if k == 'duo':
+            # each socket must behave exactly as if the other one did not exist
+            nt = False
+            for side in ('a', 'b'):
+                sub = case[side]
+                f = self.oracle_rx(sub, obs[side]) if sub['k'] == 'rx' else self.oracle_tx(sub, obs[side])
+                if f is not None:
+                    return Failure(f.tag, 'socket %s of two interleaved sockets: %s' % (side.upper(), f.what))
+                nt = nt or self._nt
+            self._nt = nt
+            return None
         return None
 
     @staticmethod
@@ -767,11 +1196,12 @@ class C12(Property):
 
     def oracle_rx(self, case, obs):
         script = case['script']
-        stream = b''.join(unhx(e) for e in script if e != 'T')
-        n_t = sum(1 for e in script if e == 'T')
+        stream = b''.join(unhx(e) for e in script if not is_to(e))
+        n_t = sum(1 for e in script if e == 'T' or e == 'W')
+        n_e = sum(1 for e in script if e == 'E')
         rem = stream
         delivered = b''
-        seen_t = 0
+        seen_t = seen_e = 0
         got_value = False
         done = {}
         cur_ms = case['ms']
@@ -793,6 +1223,12 @@ class C12(Property):
                 seen_t += 1
                 if seen_t > n_t:
                     return Failure('spurious-timeout', 'more Timeouts (%d) than the socket raised (%d)' % (seen_t, n_t))
+                consumed = b''
+            elif r == 'oserror':
+                # the socket's own transient error passes through; like any exception it must not lose a byte
+                seen_e += 1
+                if seen_e > n_e:
+                    return Failure('raises', '%r raised an OSError the socket did not raise' % (op,))
                 consumed = b''
             elif op[0] == 'r':
                 if r != 'ok':
@@ -830,20 +1266,21 @@ class C12(Property):
         if 'whole' in obs:
             # literal reading of the statement: same values / exceptions as the same calls on the same
             # implementation when the whole stream arrives at once (Timeouts retried)
-            finished = [[r['r'], r.get('v')] for r in obs['recs'] if r['r'] != 'timeout']
+            finished = [[r['r'], r.get('v')] for r in obs['recs'] if r['r'] != 'timeout' and r['r'] != 'oserror']
             if finished != obs['whole'] and len(finished) == len(case['ops']):
                 return Failure('chunk-dependence', 'results %r differ from whole-stream delivery %r' % (
                     finished, obs['whole']))
-        pieces = len([e for e in script if e != 'T' and len(unhx(e)) > 0])
-        split = pieces >= 2 or n_t > 0 or (stream and case['rs'] < len(stream))
+        pieces = len([e for e in script if not is_to(e) and len(unhx(e)) > 0])
+        split = pieces >= 2 or n_t > 0 or n_e > 0 or (stream and case['rs'] < len(stream))
         self._nt = bool(split and got_value)
         return None
 
     def oracle_tx(self, case, obs):
         accepted = b''
         prev_wire = b''
-        n_t = sum(1 for e in case['script'] if e == 'T')
-        seen_t = 0
+        n_t = sum(1 for e in case['script'] if e == 'T' or e == 'W')
+        n_e = sum(1 for e in case['script'] if e == 'E')
+        seen_t = seen_e = 0
         partial = False
         for rec in obs['recs']:
             op = case['ops'][rec['op']]
@@ -864,6 +1301,11 @@ class C12(Property):
                 partial = True
                 if seen_t > n_t or op[0] == 'b':
                     return Failure('spurious-timeout', '%r raised Timeout' % (op,))
+            elif r == 'oserror':
+                seen_e += 1
+                partial = True
+                if seen_e > n_e or op[0] == 'b':
+                    return Failure('raises', '%r raised an OSError the socket did not raise' % (op,))
             elif op[0] in ('s', 'sa'):
                 if not r.startswith('sent:'):
                     return Failure('send-return', '%r returned %s' % (op, r))
@@ -879,7 +1321,7 @@ class C12(Property):
                 if r != 'none' or wire != prev_wire:
                     return Failure('send-conservation', 'buffer() -> %s sent bytes' % r)
             prev_wire = wire
-        if any(e != 'T' and e[1] < 3 for e in case['script']):
+        if any(not is_to(e) and e[1] < 3 for e in case['script']):
             partial = True
         self._nt = bool(partial and accepted)
         return None
@@ -916,10 +1358,26 @@ class C12(Property):
             self.bump('nsr_' + rec['r'].split(':')[0])
             if rec['r'].startswith('exc:'):
                 return Failure('raises', 'read_ns raised %s' % rec['r'])
-        if any(e == 'T' for e in script):
+        # with or without timeouts, whatever read_ns returned or raised: what is buffered + undelivered
+        # afterwards is a suffix of what it was before (nothing duplicated, reordered or read twice)
+        view = b''.join(unhx(e) for e in script if not is_to(e))
+        for rec in obs['recs']:
+            if 'und' not in rec:
+                break
+            after = unhx(rec['rbuf']) + unhx(rec['und'])
+            if not view.endswith(after):
+                return Failure('conservation', 'read_ns -> %s: buffered+undelivered %r is not a suffix of what was '
+                               'owed before the call %r' % (rec['r'], after, view))
+            seen = view[:len(view) - len(unhx(rec['und']))]       # all the reader can have looked at so far
+            if rec['r'] == 'timeout' and seen.find(b':') < 0 and after != view:
+                # still looking for the size prefix: a Timeout must leave every byte where it was
+                return Failure('conservation', 'read_ns timed out before the size prefix was complete and lost '
+                               'bytes: %r -> %r' % (view, after))
+            view = after
+        if any(is_to(e) for e in script):
             return None
         stream = b''.join(unhx(e) for e in script)
-        ms = case['ms']
+        ms = self._ms_eff(case)
         pos = 0
         anyp = False
         for rec in obs['recs']:
@@ -946,10 +1404,28 @@ class C12(Property):
     # ------------------------------------------------------------------ shrinking
     def shrink(self, case):
         k = case['k']
+        if k == 'duo':
+            # does one socket alone already fail?  then it is not a two-socket problem
+            yield case['a']
+            yield case['b']
+            for side in ('a', 'b'):
+                sub = case[side]
+                for i in range(len(sub['ops'])):
+                    yield dict(case, **{side: dict(sub, ops=sub['ops'][:i] + sub['ops'][i + 1:])})
+                for i in range(len(sub['script'])):
+                    yield dict(case, **{side: dict(sub, script=sub['script'][:i] + sub['script'][i + 1:])})
+            if case['order']:
+                yield dict(case, order=[])
+                yield dict(case, order=sorted(case['order']))
+                yield dict(case, order=sorted(case['order'], reverse=True))
+            return
         if k in ('rx', 'tx'):
             ops = case['ops']
             for i in range(len(ops)):
                 yield dict(case, ops=ops[:i] + ops[i + 1:])
+            if case.get('clk'):
+                # the same schedule with socket timeouts instead of wall-clock expiries
+                yield dict(case, clk=0, script=['T' if e == 'W' else e for e in case['script']])
         if k == 'ns':
             ps = case['payloads']
             for i in range(len(ps)):
@@ -963,6 +1439,9 @@ class C12(Property):
             if case['cuts']:
                 yield dict(case, cuts=[])
                 yield dict(case, cuts=case['cuts'][:len(case['cuts']) // 2])
+            rc = self._rcfg(case)
+            for i in range(1, len(rc) - 1):
+                yield dict(case, rcfg=rc[:i] + rc[i + 1:])
             return
         if k == 'nsr' and case['nreads'] > 1:
             yield dict(case, nreads=case['nreads'] - 1)
@@ -973,10 +1452,10 @@ class C12(Property):
         if k in ('rx', 'nsr'):
             # merge adjacent chunks, drop single bytes
             for i in range(len(sc) - 1):
-                if sc[i] != 'T' and sc[i + 1] != 'T':
+                if not is_to(sc[i]) and not is_to(sc[i + 1]):
                     yield dict(case, script=sc[:i] + [sc[i] + sc[i + 1]] + sc[i + 2:])
             for i, e in enumerate(sc):
-                if e != 'T' and len(e) > 2:
+                if not is_to(e) and len(e) > 2:
                     yield dict(case, script=sc[:i] + [e[2:]] + sc[i + 1:])
                     yield dict(case, script=sc[:i] + [e[:-2]] + sc[i + 1:])
         if k == 'rx':
